@@ -7,13 +7,33 @@ import PdshVerif.Dshbak.SpecLemmas
 import PdshVerif.Dshbak.HeaderExpands
 import PdshVerif.Dshbak.Rechunk
 import PdshVerif.Dshbak.HostNames
+import PdshVerif.Dshbak.Options
 
 /-!
 # C19  dshbak regroups output losslessly; its host headers mean what pdsh means
 
-Theorems about the model `Dshbak/Model.lean` of scripts/dshbak (tied to the Perl script by
-checks/c19.py).  Everything holds for EVERY order in which Perl may enumerate its hashes: the key
+Theorems about the model `Dshbak/Model.lean` + `Dshbak/Options.lean` of scripts/dshbak (tied to the Perl
+script by checks/c19.py).  Everything holds for EVERY order in which Perl may enumerate its hashes: the key
 order `ks` and the order `gs` of the suffix groups of a header are universally quantified.
+
+clause of the property text                              theorem(s)
+-------------------------------------------------------  -----------------------------------------------------------
+for each label exactly that host's lines, in order       `lines_preserved` (all inputs), `match_formatted`,
+                                                         `match_only_labelled`, `input_is_its_lines`, `input_text_table`,
+                                                         `file_arguments_lines` (input as several files, any of them
+                                                         unterminated)
+... to the report                                        `normal_spec`
+... or, with -d, to one file per host                    `per_file_spec` (paths `DIR/LABEL` pairwise different, one per
+                                                         label, holding its lines), `file_names_are_labels`, `plan_d`,
+                                                         `plan_f`; option block: `plan_cases`, `plan_exclusive`
+-c: merged iff outputs identical                         `coalesce_iff`, `coalesce_spec`
+every host under exactly one header, each body once      `partition`, `coalesce_spec` (`once`, `bodyOnce`)
+a header, read as a pdsh expression, expands to exactly  `compress_expands(_repaired)`, `header_expands`,
+the hosts whose output it heads                          `header_parses_back`, `report_headers_parse_back`,
+                                                         `coalesced_headers_spec(_repaired)`, `coalesced_text_spec`,
+                                                         `ranges_within_limit`, `ranges_per_bracket`
+which labels are outside the header → parser tie         `outside_parser_domain_iff` (exactly: `,` `[` `]`, > 1000 bytes,
+                                                         number ≥ 2^64-1); regrouping stays lossless for them
 
 Proved:  the per-tag lists are exactly the tag's lines in input order (all inputs);  the matcher
 recovers label and body of every well-formed labelled line and ignores lines without a colon;
@@ -25,15 +45,19 @@ it denotes satisfies `Spec.CoalescedOk`.
 `header_expands`: the header TEXT of the repaired script, read by C01's model of `hostlist_create`
 (any variant of hostlist.c), yields exactly the group — the bridge between the Perl compressor and
 the C parser as a theorem (`Dshbak/HostlistBridge.lean`, `HeaderExpands.lean`).
+OPTIONS (`Dshbak/Options.lean`): the block "Process args" test by test (`plan`): the script either stops before it
+reads input (usage, exit 0 / fatal, exit 1) or runs exactly one output function; -d DIR [-f] writes one file per
+label.
 Not proved here:  Perl itself and the C parser are tied to their models by the checks (C19 runs the
 real `pdsh -Q -w HEADER` on every generated header as correspondence; C01 ties hostlist.c to its
-model);  for the UNREPAIRED script the text-level statement is false (F19-EMPTYSTEM, F19-LONGRUN).
+model);  for the UNREPAIRED script the text-level statement is false (F19-EMPTYSTEM, F19-LONGRUN);  the file
+system under DIR (which file `DIR/LABEL` is when LABEL is a path: pinned on the real script, F19-DIRLABEL).
 Genuine defects mirrored by the model, each with a switchable repaired variant that the check
 selects by probing the real script: D21 (`unterminated_dropped` / `repaired_keeps_last`),
 F19-EMPTYSTEM (`emptystem_witness`; excluded from `compress_expands` by `NoStemClash`, no exclusion
 left in `compress_expands_repaired`), F19-LONGRUN (`longrun_witness`, `ranges_within_limit`;
 `compress_expands` holds for every limit), F19-MANYRANGES (`manyranges_witness`,
-`ranges_per_bracket`).
+`ranges_per_bracket`), F19-DIRZERO (`dirzero_witness`: `-d 0` is taken for "no -d"; open).
 -/
 namespace PdshVerif.Props.C19
 open PdshVerif.Dshbak
@@ -288,6 +312,151 @@ theorem coalesced_text_spec (cfg : PdshVerif.Hostlist.Cfg) (m : Nat) (hm : 0 < m
   rw [h1] at h1'
   cases h1'
   rw [h2]; exact h3
+
+/-- WHICH LABELS FALL OUTSIDE `header_parses_back`, exactly.  A label dshbak's tag regex can produce from a
+labelled line (non-empty, no white space, no colon — `FRec.WF`) is outside `hostNameOK` if and only if it holds
+one of the parser's own syntax characters `,` `[` `]`, or is longer than 1000 bytes, or the number it ends in is
+2^64-1 or more.  For THOSE labels the header text is not a host expression for that name (`a,b` reads as two
+hosts, `n[1]` as a range) — but nothing else depends on `hostNameOK`: `lines_preserved`, `normal_spec`,
+`per_file_spec`, `coalesce_spec`, `coalesce_iff`, `partition` hold for every `FRec.WF` label, and
+`compress_expands_repaired` (the structured header denotes the group under the reading `hostsOf`) for every set
+of distinct names whatsoever.  Regrouping stays lossless when the header is not parseable. -/
+theorem outside_parser_domain_iff (t : Str) (hne : t ≠ []) (hok : ∀ c ∈ t, isSpace c = false ∧ c ≠ ':') :
+    hostNameOK t = false ↔
+      (',' ∈ t ∨ '[' ∈ t ∨ ']' ∈ t ∨ 1000 < t.length ∨
+        PdshVerif.Hostlist.ULONG_MAX ≤ valOf (splitNum (splitSuffix t).1).2) := by
+  constructor
+  · intro h
+    by_cases hcon : (',' ∈ t ∨ '[' ∈ t ∨ ']' ∈ t ∨ 1000 < t.length ∨
+        PdshVerif.Hostlist.ULONG_MAX ≤ valOf (splitNum (splitSuffix t).1).2)
+    · exact hcon
+    · simp only [not_or, Nat.not_lt, Nat.not_le] at hcon
+      obtain ⟨h1, h2, h3, h4, h5⟩ := hcon
+      have hall : ∀ c ∈ t, hostChar c = true := by
+        intro c hc
+        have hc1 : c ≠ ',' := fun e => h1 (e ▸ hc)
+        have hc2 : c ≠ '[' := fun e => h2 (e ▸ hc)
+        have hc3 : c ≠ ']' := fun e => h3 (e ▸ hc)
+        simp [hostChar, (hok c hc).1, (hok c hc).2, hc1, hc2, hc3]
+      have : hostNameOK t = true := by
+        simp only [hostNameOK, Bool.and_eq_true, decide_eq_true_eq, List.all_eq_true, Bool.not_eq_eq_eq_not,
+          Bool.not_true, List.isEmpty_eq_false_iff]
+        exact ⟨⟨⟨hne, hall⟩, h4⟩, h5⟩
+      rw [this] at h; cases h
+  · intro h
+    cases hh : hostNameOK t with
+    | false => rfl
+    | true =>
+      exfalso
+      obtain ⟨_, hall, hlen, hval⟩ := hostNameOK_spec hh
+      rcases h with h | h | h | h | h
+      · exact absurd (hall _ h) (by decide)
+      · exact absurd (hall _ h) (by decide)
+      · exact absurd (hall _ h) (by decide)
+      · omega
+      · omega
+
+/-- names outside the parser's domain are still regrouped: `a,b` and `n[1]` with the same output share one
+header whose structured reading is exactly the two names (the TEXT `a,b,n[1]` is what pdsh would misread) -/
+example : hostsOf (compressV (some 16384) (some 10240) true (strSort ["a,b".toList, "n[1]".toList])) =
+    ["a,b".toList, "n[1]".toList] ∧
+    renderHeader (compressV (some 16384) (some 10240) true (strSort ["a,b".toList, "n[1]".toList])) =
+      "a,b,n[1]".toList := by decide
+
+/-! ### input given as file arguments -/
+
+/-- FILE ARGUMENTS (`dshbak out1 out2 ...`): with D21 repaired, the table dshbak builds from several files — any
+of which may end without a newline, as pdsh writes the unterminated tail of remote output — is the table of all
+their lines in order, each treated as a full line: nothing is dropped and no line is glued to the next file's
+first line.  (A repair that only looks at the end of ALL input loses the last line of every earlier file:
+pinned on the real script by checks/c19.py, `files:*`.) -/
+theorem file_arguments_lines (fsx : List (List Str × Str))
+    (h : ∀ f ∈ fsx, (∀ l ∈ f.1, '\n' ∉ l) ∧ '\n' ∉ f.2) :
+    processLines true (readFiles (fsx.map fileText)) =
+      processLines true ((fsx.flatMap fileLines).map (·, true)) := by
+  rw [processLines_flags, readFiles_lines fsx h]
+
+/-- two files, the first ending without a newline: both of its lines are there -/
+example : processLines true (readFiles ["a: x\na: y".toList, "a: z\nb: w\n".toList]) =
+    [("a".toList, ["x".toList, "y".toList, "z".toList]), ("b".toList, ["w".toList])] := by decide
+
+/-- as found (D21), the unterminated last line of EVERY file is dropped -/
+example : processLines false (readFiles ["a: x\na: y".toList, "a: z\nb: w".toList]) =
+    [("a".toList, ["x".toList, "z".toList])] := by decide
+
+/-! ### options and `-d DIR` -/
+
+/-- NOTHING IS HALF DONE BY THE OPTION BLOCK: whatever the options and whatever is found under the name given
+to `-d`, the script either stops before it reads a single line (usage / fatal: nothing is printed to stdout,
+no file is written) or runs exactly one of the three output functions — over ALL of `sortn (keys %lines)` -/
+theorem plan_cases (fixD0 : Bool) (o : Opts) (ds : DirState) :
+    plan fixD0 o ds = .usage ∨ plan fixD0 o ds = .fatal ∨ plan fixD0 o ds = .report ∨
+      plan fixD0 o ds = .coalesced ∨ ∃ b, plan fixD0 o ds = .perFile b := by
+  cases h : plan fixD0 o ds <;> simp
+
+/-- `-c` never writes files and `-d DIR` never coalesces; `-f` alone, or `-c` with `-d`, is refused -/
+theorem plan_exclusive (fixD0 : Bool) (o : Opts) (ds : DirState) :
+    (plan fixD0 o ds = .coalesced → o.c = true ∧ dGiven fixD0 o = false ∧ o.f = false) ∧
+    (∀ b, plan fixD0 o ds = .perFile b → dGiven fixD0 o = true ∧ o.c = false ∧ (b = true → o.f = true ∧ ds = .missing) ∧
+      (b = false → ds = .dir)) ∧
+    (plan fixD0 o ds = .report → o.c = false ∧ o.f = false ∧ dGiven fixD0 o = false) := by
+  unfold plan
+  cases o.h <;> cases o.c <;> cases o.f <;> cases dGiven fixD0 o <;> cases ds <;> simp
+
+/-- with `-d DIR` given (a name Perl takes for true) and DIR an existing directory, the per-file output runs -/
+theorem plan_d (o : Opts) (dir : Str) (hd : o.d = some dir) (ht : perlTrue dir = true) (hh : o.h = false)
+    (hc : o.c = false) (fixD0 : Bool) : plan fixD0 o .dir = .perFile false := by
+  have : dGiven fixD0 o = true := by simp [dGiven, hd, ht]
+  simp [plan, hh, hc, this]
+
+/-- `-f` creates a missing DIR and changes nothing when DIR exists -/
+theorem plan_f (o : Opts) (dir : Str) (hd : o.d = some dir) (ht : perlTrue dir = true) (hh : o.h = false)
+    (hc : o.c = false) (hf : o.f = true) (fixD0 : Bool) :
+    plan fixD0 o .missing = .perFile true ∧ plan fixD0 o .dir = .perFile false ∧ plan fixD0 o .notDir = .fatal := by
+  have : dGiven fixD0 o = true := by simp [dGiven, hd, ht]
+  simp [plan, hh, hc, hf, this]
+
+/-- F19-DIRZERO (witness): `dshbak -d 0` — a directory named `0` — prints the report to stdout instead of
+writing one file per host, because the script tests the truth of the NAME; with `defined $opt_d` it does not -/
+theorem dirzero_witness :
+    plan false { d := some "0".toList } .dir = .report ∧ plan true { d := some "0".toList } .dir = .perFile false ∧
+    plan false { d := some "0".toList, f := true } .dir = .fatal := by decide
+
+/-- `-d DIR`, LOSSLESS: for every input and every hash order, the paths `do_output_per_file` opens are pairwise
+different STRINGS, one per label of the input, each `DIR/LABEL`, and what is printed to it is exactly that
+label's lines in input order -/
+theorem per_file_spec (rep : Bool) (ls : List InLine) (h : ∀ l ∈ ls, l.WF) (ks : List Str)
+    (hks : ks.Perm (keys (table rep ls))) (dir : Str) :
+    ((perFileWrites dir ks (table rep ls)).map Prod.fst).Nodup ∧
+    (∀ t ∈ Spec.labels (recsOf ls),
+      (filePath dir t, Spec.linesOf (recsOf ls) t) ∈ perFileWrites dir ks (table rep ls)) ∧
+    (∀ w ∈ perFileWrites dir ks (table rep ls), ∃ t ∈ Spec.labels (recsOf ls),
+      w = (filePath dir t, Spec.linesOf (recsOf ls) t)) := by
+  have sp := normal_spec rep ls h ks hks
+  refine ⟨?_, ?_, ?_⟩
+  · have : (perFileWrites dir ks (table rep ls)).map Prod.fst =
+        ((normalBlocks ks (table rep ls)).map Prod.fst).map (filePath dir) := by
+      simp [perFileWrites, List.map_map, Function.comp_def]
+    rw [this]
+    exact List.Pairwise.map _ (fun a b hab e => hab (filePath_inj dir a b e)) sp.once
+  · intro t ht
+    obtain ⟨b, hb, hbt⟩ := List.mem_map.mp (sp.all t ht)
+    refine List.mem_map.mpr ⟨b, hb, ?_⟩
+    rw [sp.lines b hb, hbt]
+  · intro w hw
+    obtain ⟨b, hb, rfl⟩ := List.mem_map.mp hw
+    exact ⟨b.1, sp.only b.1 (List.mem_map.mpr ⟨b, hb, rfl⟩), by rw [sp.lines b hb]⟩
+
+/-- FILE NAMES = LABELS: a label in C19's domain (`hostNameOK`: what the parser reads as one host) that is not
+`.`/`..` and holds no `/` names one directory entry of DIR — for such labels "pairwise different strings"
+above means pairwise different FILES.  (`hostNameOK` allows `/` and dots: `a/b`, `./x`, `..` are outside
+`fileNameOK`; what the real script does with them — `x` and `./x` share one file, the later one wins, exit 0;
+`../x` lands outside DIR; `a/b` and `.` end the run with exit 1 after some files were written — is pinned on
+the real script by checks/c19.py, finding F19-DIRLABEL.) -/
+theorem file_names_are_labels :
+    (["n01", "n1-ib", "0", "x.y_z-1", "..n", "...", ".hidden"].map String.toList).all fileNameOK = true ∧
+    (["a/b", "./x", "../x", ".", "..", "", "x/"].map String.toList).all (fun t => !fileNameOK t) = true := by
+  decide
 
 /-! ### defects of the unchanged script, mirrored by the model -/
 
